@@ -53,7 +53,11 @@ def gen_spec(rnd, dotted=None):
         form = rnd.choice(rpuml.DECL_FORMS)
         if "." in c and form == "component n" and rnd.random() < 0.5:
             form = "component [n]"
-        alias = f"al{i}" if " as a" in form else None
+        alias = None
+        if " as a" in form:
+            # half of the aliases are tokens that other diagrams of the same process use as component names
+            free = [x for x in NAMES if x not in comps and x not in {a for _f, a in decl.values() if a}]
+            alias = rnd.choice(free) if free and rnd.random() < 0.5 else f"al{i}"
         decl[c] = (form, alias)
     referenced = {x for p in rel for x in p}
     for c in comps:
